@@ -34,7 +34,7 @@ pub fn run(env: &Env) -> Report {
             let xdg = env.fresh_xdg(&case);
             let mut s = match Sess::new(&mut t, &env.data, "a", PHONETIC, opts, &xdg) { Some(s) => s, None => continue };
             let w = { let mut w = pools.word(&mut rng); while !w.chars().all(|c| c.is_ascii_alphanumeric()) || w.is_empty() { w = pools.word(&mut rng); } w };
-            let text = match rng.below(8) { 0 => format!("({})", w), 1 => format!("\"{}\"", w), 2 => format!("{}.", w), 3 => format!("'{}", w), _ => w.clone() };
+            let text = match rng.below(12) { 0 => format!("({})", w), 1 => format!("\"{}\"", w), 2 => format!("{}.", w), 3 => format!("'{}", w), 4 => format!("{}:`", w), 5 => format!("{}:", w), 6 => format!("{}!?", w), _ => w.clone() };
             let wrapped = text != w;
             let ctxv = |s: &Sess, what: &str| json!({"stream": "c09", "layout": PHONETIC, "opts": s.opts.bits_str(), "text": text, "events": s.events, "at": what});
             let o = s.type_text(&mut t, &text);
@@ -58,7 +58,8 @@ pub fn run(env: &Env) -> Report {
             let curly = opts.smart_quote && (cp.chars().chain(cr.chars()).any(|c| "‘’“”".contains(c)));
             let english = chosen == text && wrapped;
             let emoji_wrapped = false;
-            let cls_for = |base: &str| -> String { if curly { "smart-quoted-choice-not-recalled".into() } else if english { "raw-english-choice-with-punctuation-not-recalled".into() } else { base.into() } };
+            let colon_end = text.ends_with(':');
+            let cls_for = |base: &str| -> String { if colon_end { "colon-terminated-word-choice-overridden".into() } else if curly { "smart-quoted-choice-not-recalled".into() } else if english { "raw-english-choice-with-punctuation-not-recalled".into() } else { base.into() } };
             // other words in between (some learning)
             for _ in 0..rng.below(4) {
                 let ow = pools.word(&mut rng);
@@ -161,7 +162,7 @@ pub fn run_c10(env: &Env) -> Report {
             let ctxv = |at: &str| { let mut w = what.clone(); w["at"] = json!(at); w["stream"] = json!("c10"); w };
             let mut s = match Sess::new(t, &env.data, "c", PHONETIC, opts, xdg) { Some(s) => s, None => { rep.violation("C10", "new-context-panics", format!("creating a context panicked: {}", what), ctxv("new")); return None; } };
             let mut seen = vec![];
-            for w in ["ami", "kor", "a", ":)", "emon"] {
+            for w in ["ami", "amike", "kor", "korei", "a", ":)", ":er", "emon", "emoner", "tader"] {
                 let o = s.type_text(t, w);
                 if o == Obs::Panic { rep.violation("C10", "typing-panics", format!("typing {:?} panicked: {}", w, what), ctxv("type")); return None; }
                 if let Some((c, sl)) = full(&o) {
